@@ -172,6 +172,11 @@ func (e *Exec) verifIntrinsic(caller *frame, name string, args []Value) Value {
 			if e.run.cfg.kfConfirm == id {
 				e.assume(region)
 			} else {
+				if region.conc() && region.b() {
+					// the whole path lies inside the region of an open known finding: what its
+					// monitors recorded so far belongs to that finding, not to this pass
+					e.kfExcluded = true
+				}
 				e.assume(notT(region))
 			}
 			if !e.hintValid && e.pos >= len(e.decisions) {
